@@ -527,12 +527,12 @@ Fixpoint parse_plan (c : Cfg) (maxb : N) (plan : list plan_item) (p : pstate) : 
     parse_plan c maxb rest (parse_range c maxb pi (ents_from c (b_ents (pi_blk pi)) (pi_start pi)) (pi_start pi) p)
   end.
 
-Definition batch_read (c : Cfg) (m : mode) (s : st) (t : topic) (maxb : N) (ckpt : bool) (start : option N)
-  : st * result :=
-  let ts := get_ts s (t_id t) in
-  let wsnap := if ts_poisoned ts then None else ts_writer ts in
-  (* 1) position *)
-  let '(r1, chain, idx0, off0, tail_bid, tail_off, trim0, hint0, stateless) :=
+(* the cursor a batch read starts from: (reader to store back, chain, idx, off, tail id,
+   tail offset / remaining raw offset, trim, hint, stateless) *)
+Definition br_pos := (option reader * list blk * nat * N * N * N * N * N * bool)%type.
+
+(* 1) position *)
+Definition br_position (c : Cfg) (ts : tstate) (start : option N) : br_pos :=
     match start with
     | Some req =>
       let ch := match ts_reader ts with Some r => r_chain r | None => [] end in
@@ -556,7 +556,13 @@ Definition batch_read (c : Cfg) (m : mode) (s : st) (t : topic) (maxb : N) (ckpt
                 | None => r
                 end in
       (Some r', r_chain r', r_idx r', r_off r', r_tail_bid r', r_tail_off r', 0, 0, false)
-    end in
+    end.
+
+(* 2-5) plan, read, parse, commit from a position *)
+Definition br_from (c : Cfg) (m : mode) (s : st) (t : topic) (maxb : N) (ckpt : bool) (ts : tstate) (pos : br_pos)
+  : st * result :=
+  let wsnap := if ts_poisoned ts then None else ts_writer ts in
+  let '(r1, chain, idx0, off0, tail_bid, tail_off, trim0, hint0, stateless) := pos in
   let ts_h := match r1 with Some r => with_reader ts r | None => ts end in
   (* 2) plan *)
   let '(racc, planned, idx_after, truncated) :=
@@ -609,6 +615,11 @@ Definition batch_read (c : Cfg) (m : mode) (s : st) (t : topic) (maxb : N) (ckpt
     let ts_d := if ckpt && negb stateless then count_sub ts_c (ps_parsed p) else ts_c in
     (set_ts s (t_id t) ts_d, REntries (rev (ps_outs p)))
   end.
+
+Definition batch_read (c : Cfg) (m : mode) (s : st) (t : topic) (maxb : N) (ckpt : bool) (start : option N)
+  : st * result :=
+  let ts := get_ts s (t_id t) in
+  br_from c m s t maxb ckpt ts (br_position c ts start).
 
 (* ------------------------------------------------------------------ recovery (startup_chore) *)
 Record recovered := {
